@@ -261,7 +261,8 @@ class CHECK(core.Check):
                "load: file names are looked up as written, all files in one directory (path resolution relative to the "
                "loading file, `~` expansion and a file that loads itself until the process runs out of descriptors are not "
                "modelled); C16_load_layout / C16_load_layouts_agree are the statements for trees of files",
-               "tabs/other white space BETWEEN tokens are not separators of REO_Chunks; layouts use spaces between "
+               "tabs/other white space BETWEEN tokens are not separators of REO_Chunks (C16_only_blanks_separate: a run without "
+               "blank and quote is one token, whatever other white space it contains); layouts use spaces between "
                "tokens (indentation and trailing white space range over all Python white space)",
                "missing final newline: C16_final_newline_optional / C16_layout_noeol"]
     TECHNIQUE = ("Lean 4 theorem over all layouts (structural induction on layout, runs, segments; an inductive "
